@@ -78,6 +78,7 @@ class Instance:
         self.body_done = False
         self.receive: Any = None
         self.extra_after_disconnect = 0
+        self.running_at_end = False
         self.program: List[Any] = []
 
     def body(self) -> bytes:
@@ -134,6 +135,9 @@ class ScriptedApp:
             inst.exit = "raise:" + type(e).__name__
             raise
         finally:
+            if getattr(self.env, "tearing_down", False):
+                inst.exit = None  # still running when the case ended (harness cancelled it)
+                inst.running_at_end = True
             ev = self.log.add("app_exit", iid=inst.iid, how=inst.exit)
             inst.exit_seq, inst.exit_t = ev["seq"], ev["t"]
 
